@@ -234,3 +234,14 @@ def node_containing(cfg, sub):
         if hit and (best is None or size < best[0]):
             best = (size, n.id)
     return best[1] if best else None
+
+
+def alias_root(cfg, nid, name, depth=6):
+    """follow `a = b` chains: the name whose object `name` refers to at node nid (unique reaching plain-name assignments)"""
+    while depth > 0:
+        vs = values(cfg, nid, name)
+        if not vs or len(vs) != 1 or not isinstance(vs[0][1], ast.Name):
+            return name
+        nid, name = vs[0][0], vs[0][1].id
+        depth -= 1
+    return name
